@@ -142,9 +142,107 @@ Definition reg_agree (c : regcase) : bool :=
    let after := cpreg_obj Qops (r_Xs c) (r_ys c) w (set_nth (r_k c) (r_xnew c) (r_facs c)) (r_k c) dk (r_rank c) (r_reg c) in
    qle after (before + tol_obj * (before + ny))).
 
-Inductive body := CPBlock (c : cpcase) | Hals (c : halscase) | LSBlock (c : lscase) | Norm (c : normcase) | RegBlock (c : regcase).
+(* Tucker / HOOI: factors before and after one HOOI block (identity on undecomposed modes), the implementation's core computed from
+   the factors after the block: the model core is the implementation's, the factors have orthonormal columns, the identity
+   ||X - core x U||^2 = ||X||^2 - ||core||^2 holds on the instance, and the exact Tucker objective does not increase over the block *)
+Record tkcase := mkTk { t_X : tensor Q; t_rs : list nat; t_before : list qmat; t_after : list qmat; t_core : list Q }.
+Fixpoint orth_defect_ok (s rs : list nat) (Us : list qmat) : bool :=
+  match s, rs, Us with
+  | d :: s', r :: rs', U :: Us' =>
+      forall_lt r (fun a => forall_lt r (fun b =>
+        qle (Qabs (gsum Qops d (fun i => Qred (mget Qops U i a * mget Qops U i b)) - (if Nat.eqb a b then 1 else 0))) tol_cert)) &&
+      orth_defect_ok s' rs' Us'
+  | [], [], [] => true
+  | _, _, _ => false
+  end.
+Definition tk_agree (c : tkcase) : bool :=
+  let X := t_X c in let rs := t_rs c in
+  let normX2 := gsum Qops (prod (shape X)) (fun o => Qred (nth o (data X) 0 * nth o (data X) 0)) in
+  let core := data (tk_core Qops X (t_after c) rs) in
+  let cscale := qsumabs (prod rs) (fun q => nth q core 0) in
+  let obj_after := tk_hooi_obj Qops X rs (t_after c) in
+  let obj_before := tk_hooi_obj Qops X rs (t_before c) in
+  orth_defect_ok (shape X) rs (t_after c) &&
+  Nat.eqb (length (t_core c)) (prod rs) &&
+  forall_lt (prod rs) (fun q => qle (Qabs (nth q core 0 - nth q (t_core c) 0)) (tol_match * cscale + atol_tiny)) &&
+  qle (Qabs (obj_after - (normX2 - tk_core_norm2 Qops X rs (t_after c)))) (tol_cert * normX2) &&
+  qle obj_after (obj_before + tol_cert * normX2).
+
+(* coupled block of CMTF: state before the block, V, the implementation's new coupled factor: normal equations of the MODEL system
+   G + V'V against MTTKRP + Y V, exact coupled objective does not increase *)
+Record cmtfcase := mkCm { m_X : tensor Q; m_Y : qmat; m_facs : list qmat; m_V : qmat; m_q : nat; m_rank : nat; m_xnew : qmat }.
+Definition cmtf_agree (c : cmtfcase) : bool :=
+  let s := shape (m_X c) in let w := map (fun _ : nat => 1) (seq 0 (m_rank c)) in
+  let d0 := nth 0 s 0%nat in
+  forall_lt d0 (fun i => forall_lt (m_rank c) (fun r =>
+    let lhs := cmtf_cert_lhs Qops s w (m_facs c) (m_V c) (m_q c) (m_rank c) (m_xnew c) i r in
+    let rhs := cmtf_M Qops (m_X c) (m_Y c) w (m_facs c) (m_V c) (m_q c) i r in
+    let sc := qsumabs (m_rank c) (fun t => mget Qops (m_xnew c) i t * qsumabs (m_rank c) (fun t' => cmtf_G Qops s w (m_facs c) (m_V c) (m_q c) t' r)) in
+    qle (Qabs (lhs - rhs)) (tol_cert * (sc + Qabs rhs) + atol_tiny))) &&
+  (let before := cmtf_obj Qops (m_X c) (m_Y c) w (m_facs c) (m_V c) (m_q c) (m_rank c) in
+   let after := cmtf_obj Qops (m_X c) (m_Y c) w (set_nth 0 (m_xnew c) (m_facs c)) (m_V c) (m_q c) (m_rank c) in
+   qle after (before + tol_obj * (before + 1))).
+
+(* ridge blocks of TuckerRegressor.fit (scalar responses): samples, responses, core and factors before the block; the block is the
+   core (g_iscore) or factor g_k; the implementation's answer must satisfy the normal equations of the MODEL-derived design
+   (projected samples / unit-matrix predictions) and must not increase the exact block objective *)
+Record tkregcase := mkTg {
+  g_Xs : list (tensor Q); g_ys : list Q; g_rs : list nat; g_core : list Q; g_Us : list qmat; g_iscore : bool; g_k : nat; g_reg : Q;
+  g_newcore : list Q; g_newfac : qmat }.
+Definition tkreg_agree (c : tkregcase) : bool :=
+  let Xs := g_Xs c in let ys := g_ys c in let rs := g_rs c in let ns := length Xs in
+  let ny := gsum Qops ns (fun s => Qred (nth s ys 0 * nth s ys 0)) in
+  if g_iscore c then
+    forall_lt (prod rs) (fun q =>
+      let lhs := tkreg_core_normal_lhs Qops Xs ys rs (g_newcore c) (g_Us c) q in
+      let rhs := Qred (g_reg c * nth q (g_newcore c) 0) in
+      let sc := qsumabs ns (fun s => tk_core_at Qops (nth s Xs (mk [] [])) (g_Us c) (unravel rs q) *
+                  (Qabs (nth s ys 0) + Qabs (tk_inner Qops (nth s Xs (mk [] [])) rs (g_newcore c) (g_Us c)))) in
+      qle (Qabs (lhs - rhs)) (tol_cert * (sc + Qabs rhs) + atol_tiny)) &&
+    qle (tkreg_obj_core Qops Xs ys rs (g_newcore c) (g_Us c) (g_reg c))
+        (tkreg_obj_core Qops Xs ys rs (g_core c) (g_Us c) (g_reg c) + tol_obj * (ny + 1))
+  else
+    let k := g_k c in let dk := nth k (shape (nth 0 Xs (mk [] []))) 0%nat in
+    let Us' := set_nth k (g_newfac c) (g_Us c) in
+    forall_lt dk (fun i => forall_lt (nth k rs 0%nat) (fun b =>
+      let lhs := tkreg_fac_normal_lhs Qops Xs ys rs (g_core c) (g_Us c) k (g_newfac c) i b in
+      let rhs := Qred (g_reg c * mget Qops (g_newfac c) i b) in
+      let sc := qsumabs ns (fun s => tkreg_coef Qops (nth s Xs (mk [] [])) rs (g_core c) (g_Us c) k i b *
+                  (Qabs (nth s ys 0) + Qabs (tk_inner Qops (nth s Xs (mk [] [])) rs (g_core c) Us'))) in
+      qle (Qabs (lhs - rhs)) (tol_cert * (sc + Qabs rhs) + atol_tiny))) &&
+    qle (tkreg_obj_fac Qops Xs ys rs (g_core c) Us' k dk (g_reg c))
+        (tkreg_obj_fac Qops Xs ys rs (g_core c) (g_Us c) k dk (g_reg c) + tol_obj * (ny + 1)).
+
+(* tensor-ring ALS block: cores before the block, the block index, the implementation's new core and (lstsq variant) its design
+   matrix: the model's sub-chain design matrix is the implementation's, the new core satisfies the normal equations of the MODEL
+   design, the rotated block objective equals the true squared error of the ring EXACTLY (trace cyclicity on the instance) and does
+   not increase *)
+Record trcase := mkTr { tr_X : tensor Q; tr_cores : list (tensor Q); tr_dim : nat; tr_new : tensor Q; tr_has_design : bool; tr_design : qmat }.
+Definition tr_agree (c : trcase) : bool :=
+  let X := tr_X c in let s := shape X in let cs := tr_cores c in let d := tr_dim c in let G := tr_new c in
+  let ra := nth 0 (shape G) 0%nat in let rb := nth 2 (shape G) 0%nat in
+  let normX2 := gsum Qops (prod s) (fun o => Qred (nth o (data X) 0 * nth o (data X) 0)) in
+  let newcs := set_nth d G cs in
+  let obj_new := tr_block_obj Qops X cs d G in
+  let obj_old := tr_block_obj Qops X cs d (nth d cs (mk [] [])) in
+  Qeq_bool obj_new (tr_sqerr Qops X newcs) && Qeq_bool obj_old (tr_sqerr Qops X cs) &&
+  qle obj_new (obj_old + tol_obj * (obj_old + normX2)) &&
+  forall_lt (nth d s 0%nat) (fun i => forall_lt (ra * rb) (fun j =>
+    qle (Qabs (tr_normal_lhs Qops X cs d G i j)) (tol_cert * (qsumabs (prod s) (fun o =>
+       tr_sub Qops cs (unravel s o) d (j mod rb) (j / rb) * (Qabs (nth o (data X) 0) + Qabs (tr_pred_block Qops cs G d (unravel s o))))) + atol_tiny))) &&
+  (negb (tr_has_design c) ||
+   (* rows of the implementation's design matrix: the other modes in their natural order, row-major *)
+   let others := remove_nth d s in
+   forall_lt (prod others) (fun row =>
+     let idx := insert_at d 0%nat (unravel others row) in
+     forall_lt (ra * rb) (fun j =>
+       qle (Qabs (tr_sub Qops cs idx d (j mod rb) (j / rb) - mget Qops (tr_design c) row j)) (tol_match * 1 + tol_match * Qabs (mget Qops (tr_design c) row j))))).
+
+Inductive body := CPBlock (c : cpcase) | Hals (c : halscase) | LSBlock (c : lscase) | Norm (c : normcase) | RegBlock (c : regcase)
+                | TkBlock (c : tkcase) | CmtfBlock (c : cmtfcase) | TkRegBlock (c : tkregcase) | TRBlock (c : trcase).
 Definition case := (nat * body)%type.
 Definition agree (c : case) : bool :=
-  match snd c with CPBlock b => cp_agree b | Hals b => hals_agree b | LSBlock b => ls_agree b | Norm b => norm_agree b | RegBlock b => reg_agree b end.
+  match snd c with CPBlock b => cp_agree b | Hals b => hals_agree b | LSBlock b => ls_agree b | Norm b => norm_agree b | RegBlock b => reg_agree b
+  | TkBlock b => tk_agree b | CmtfBlock b => cmtf_agree b | TkRegBlock b => tkreg_agree b | TRBlock b => tr_agree b end.
 Definition ident (c : case) : nat := fst c.
 Definition failing := failing_ids agree ident.
